@@ -11,6 +11,7 @@ import (
 	"math/big"
 	"math/rand"
 	"os"
+	"regexp"
 	"strconv"
 	"strings"
 
@@ -504,8 +505,10 @@ func suiteC05(c *Ctx) {
 		}
 		emit(fmt.Sprintf("S1F1 <A %s> .", lit), mk(func() ast.ItemNode { return ast.NewASCIINode(string([]byte{byte(ch)})) }), "char code")
 	}
-	for _, bad := range []string{"128", "255", "256", "-1", "1.5", "T", "\"caf\u00e9\"", "\"a\nb\"", "\"\nabc\"", "\"abc", "0x80", "99999999999999999999", "+5", "\"\xff\""} {
+	for _, bad := range []string{"128", "255", "256", "-1", "1.5", "T", "\"caf\u00e9\"", "\"a\nb\"", "\"\nabc\"", "\"abc", "0x80", "99999999999999999999", "+5", "\"\xff\"",
+		"4294967296", "4294967361", "0x100000000", "0x100000041", "1099511627841", "9223372036854775873", "18446744073709551615", "0xffffffffffffff41", "0x10000000000000041"} {
 		emit(fmt.Sprintf("S1F1 <A \"x\" %s> .", bad), nil, "ascii refused")
+		emit(fmt.Sprintf("S1F1 <A %s> .", bad), nil, "ascii refused")
 	}
 	emit(`S1F1 <A "C:\path\new" 0x0A "tab\t"> .`, mk(func() ast.ItemNode { return ast.NewASCIINode("C:\\path\\new\ntab\\t") }), "backslashes are literal")
 	emit(`S1F1 <A "a" "b" 0x22 "c"> .`, mk(func() ast.ItemNode { return ast.NewASCIINode("ab\"c") }), "concatenation")
@@ -526,6 +529,42 @@ func suiteC05(c *Ctx) {
 			exp = mk(func() ast.ItemNode { return ast.NewFloatNode(w, v) })
 		}
 		emit(fmt.Sprintf("S1F1 <F%d %s> .", w, lit), exp, "float")
+	}
+	// signed zeros and integer notation in float items
+	for _, w := range []int{4, 8} {
+		for _, lit := range []string{"-0", "-0.0", "+0", "-0e0", "0", "-0.", "-.0", "1", "-1", "16777217", "-16777217", "9007199254740993", "18446744073709551615", "9223372036854775807", "-9223372036854775808", "340282346638528859811704183484516925440", "340282356779733661637539395458142568448"} {
+			bits := 32
+			if w == 8 {
+				bits = 64
+			}
+			v, err := strconv.ParseFloat(lit, bits)
+			var exp ast.ItemNode
+			if err == nil {
+				w, v := w, v
+				exp = mk(func() ast.ItemNode { return ast.NewFloatNode(w, v) })
+			}
+			emit(fmt.Sprintf("S1F1 <F%d %s> .", w, lit), exp, "float: zero sign / integer notation")
+		}
+	}
+	// integers just above the midpoint of two adjacent float32 values that are both integers
+	for i := 0; i < c.scale(200, 4000); i++ {
+		e := 25 + g.pick(38)
+		b := uint32(127+e)<<23 | uint32(g.r.Intn(1<<23))
+		lo, _ := new(big.Float).SetFloat64(float64(math.Float32frombits(b))).Int(nil)
+		hi, _ := new(big.Float).SetFloat64(float64(math.Float32frombits(b + 1))).Int(nil)
+		mid := new(big.Int).Add(lo, hi)
+		mid.Rsh(mid, 1)
+		mid.Add(mid, big.NewInt(int64(g.pick(3))-1)) // just below, at, just above the midpoint
+		lit := mid.String()
+		if g.chance(0.3) {
+			lit = "-" + lit
+		}
+		v, err := strconv.ParseFloat(lit, 32)
+		var exp ast.ItemNode
+		if err == nil {
+			exp = mk(func() ast.ItemNode { return ast.NewFloatNode(4, v) })
+		}
+		emit(fmt.Sprintf("S1F1 <F4 %s> .", lit), exp, "float32 integer midpoint")
 	}
 	// literals just above the midpoint of two adjacent float32 values: rounding
 	// once (to float32) and rounding twice (to float64, then to float32) differ
@@ -933,6 +972,14 @@ func suiteC06(c *Ctx) {
 		}
 		c.emit(Case{"spaces-in-header", []Step{smlStep("S1F1 H->E lot" + sp[:1] + " .")}, false}) // cut inside the rune
 	}
+	// stream and function codes at and beyond their ranges, with every wait bit and direction
+	for _, sf := range []string{"S0F0", "S127F255", "S128F1", "S1F256", "S1F257", "S128F257", "S999F999", "S1F2", "S0F1", "S99999999999999999999F1", "S1F99999999999999999999", "S00F01", "s1f1"} {
+		for _, w := range []string{"", " W", " [W]", " w"} {
+			for _, rest := range []string{" .", " H->E .", " H<-E name .", " <A \"x\"> .", " name <L> .", " h<->e <U1 1> ."} {
+				c.emit(Case{"header-ranges", []Step{smlStep(sf + w + rest)}, false})
+			}
+		}
+	}
 	n := c.scale(3000, 150000)
 	for i := 0; i < n; i++ {
 		var text string
@@ -1025,7 +1072,7 @@ func monitorC06(c *Ctx, id string, cs Case, e *Exec, final []string) {
 // hostile texts for the worker (C06): what a subprocess must survive
 func hostileSml(r *rand.Rand, thorough bool, emit func(kind, text string)) {
 	g := newGen(r, thorough, map[string]int{})
-	for _, n := range []string{"300000000", "4294967296", "300000000000", "9223372036854775807", "99999999999999999999"} {
+	for _, n := range []string{"1000000", "50000000", "300000000", "4294967296", "300000000000", "9223372036854775807", "99999999999999999999"} {
 		emit("huge-size", fmt.Sprintf("S1F1 <L <A x> <A[%s] x>> .", n))
 		emit("huge-size", fmt.Sprintf("S1F1 <L <A x> <A[%s..] x> <A[..%s] x> <A[%s..%s] x>> .", n, n, n, n))
 		emit("huge-size", fmt.Sprintf("S1F1 <A[%s] v> .", n))
@@ -1137,8 +1184,20 @@ func suiteC08(c *Ctx) {
 		// letter case of keywords, type names, number prefixes
 		up := make([]string, len(toks))
 		mode := g.pick(3) // every such token in upper case, in lower case, or letter by letter
+		header := true
 		for j, t := range toks {
 			up[j] = t
+			if t == "<" {
+				header = false
+			}
+			// in the header only the stream/function code, the wait bit and the direction are
+			// keywords; a message name is kept letter for letter
+			if header && !headerKwRe.MatchString(t) {
+				continue
+			}
+			if t == "." {
+				header = true
+			}
 			if mode < 2 || g.chance(0.5) {
 				up[j] = recase(g, t, mode)
 			}
@@ -1147,6 +1206,8 @@ func suiteC08(c *Ctx) {
 		c.emit(Case{"layouts", []Step{smlStep(a), smlStep(b), smlStep(cc), lexStep(a), lexStep(b)}, false})
 	}
 }
+
+var headerKwRe = regexp.MustCompile(`^(?i)(s\d+f\d+|w|\[w\]|h(->|<-|<->)e|\.)$`)
 
 // recase changes the letter case of a keyword, type name, boolean, or number prefix / hex digits / exponent
 func recase(g *Gen, t string, mode int) string {
